@@ -31,6 +31,7 @@ const (
 	variantNone = iota
 	variantA    // one unsigned32
 	variantB    // two unsigned16 (same record size: the decoded shape reveals which was used)
+	variantC    // one unsigned32 with the same element id and length as A but enterprise 29305 (reverse element)
 )
 
 type entry struct {
@@ -73,6 +74,11 @@ func templatePkt(dom uint32, id uint16, variant int) []byte {
 		ie := common.IE(common.KU32)
 		return ref.FieldSpec(pkt, ie.ElementId, ie.Len, 0)
 	}
+	if variant == variantC {
+		pkt = ref.U16(pkt, 1)
+		ie := common.IE(common.KU32)
+		return ref.FieldSpec(pkt, ie.ElementId, ie.Len, 29305)
+	}
 	pkt = ref.U16(pkt, 2)
 	ie := common.IE(common.KU16)
 	pkt = ref.FieldSpec(pkt, ie.ElementId, ie.Len, 0)
@@ -114,10 +120,7 @@ func Check_History() {
 		sx.Assume(id >= 256)
 		switch sx.Choose("message", 4) {
 		case 0, 1:
-			variant := variantA
-			if sx.Choose("variant", 2) == 1 {
-				variant = variantB
-			}
+			variant := []int{variantA, variantB, variantC}[sx.Choose("variant", 3)]
 			_, err := cp.VerifDecodePacket(templatePkt(dom, id, variant), "1.2.3.4:5")
 			sx.Assert(err == nil, "valid-template-refused")
 			m.set(dom, id, variant)
@@ -141,10 +144,17 @@ func Check_History() {
 			recs := msg.GetSet().GetRecords()
 			sx.Assert(len(recs) == 1, "one-record")
 			el := recs[0].GetOrderedElementList()
-			if m.es[i].variant == variantA {
+			if m.es[i].variant == variantA || m.es[i].variant == variantC {
 				sx.Assert(len(el) == 1, "decoded-with-the-wrong-template")
 				sx.Assert(el[0].GetUnsigned32Value() == v, "value-A")
-				sx.Reach("data-decoded-A")
+				wantEnt := uint32(0)
+				if m.es[i].variant == variantC {
+					wantEnt = 29305
+					sx.Reach("data-decoded-C")
+				} else {
+					sx.Reach("data-decoded-A")
+				}
+				sx.Assert(el[0].GetInfoElement().EnterpriseId == wantEnt, "decoded-with-a-stale-template-definition")
 			} else {
 				sx.Assert(len(el) == 2, "decoded-with-the-wrong-template")
 				sx.Assert(sx.And(el[0].GetUnsigned16Value() == uint16(v>>16), el[1].GetUnsigned16Value() == uint16(v)), "value-B")
@@ -165,6 +175,13 @@ func Check_History() {
 					want = 2
 				}
 				sx.Assert(len(t.IEs) == want, "stored-template-shape")
+				if e.variant != variantB {
+					wantEnt := uint32(0)
+					if e.variant == variantC {
+						wantEnt = 29305
+					}
+					sx.Assert(t.IEs[0].EnterpriseId == wantEnt, "stored-template-definition")
+				}
 			}
 		}
 		sx.Assert(found, "template-missing-from-store")
